@@ -17,6 +17,9 @@ import hashlib
 import json
 import multiprocessing as mp
 import os
+import pickle
+import select
+import signal
 import subprocess
 import sys
 import time
@@ -105,6 +108,9 @@ class Agg:
         sh = out.get("shape")
         if sh is not None:
             self.shapes[sh] = self.shapes.get(sh, 0) + 1
+        st = out.get("states")
+        if st:
+            self.states.update(st)
         sig = out.get("sig")
         if sig is not None:
             self.sigs.add(sig)
@@ -121,6 +127,7 @@ class Agg:
             "runs": self.runs, "steps": self.steps, "simtime": self.simtime,
             "faults": self.faults, "probes": self.probes,
             "shapes": self.shapes, "sigs": list(self.sigs),
+            "states": list(self.states),
             "nontrivial_sigs": list(self.nontrivial_sigs),
             "samples": self.samples, "known": self.known,
             "violation": self.violation, "error": self.error,
@@ -139,6 +146,7 @@ def merge(dst, d):
     dst["chunks_partial"] = dst.get("chunks_partial", 0) + (
         0 if d.get("complete") or not d["runs"] else 1)
     dst["sigs"].update(d["sigs"])
+    dst.setdefault("states", set()).update(d.get("states", ()))
     dst["nontrivial_sigs"].update(d["nontrivial_sigs"])
     if len(dst["samples"]) < 4:
         dst["samples"].extend(d["samples"][: 4 - len(dst["samples"])])
@@ -201,10 +209,74 @@ def _chunk(args):
     return a, b, d
 
 
+def fork_call(fn, args):
+    """Run fn(args) in a freshly forked child; returns (pid, read_fd)."""
+    r, w = os.pipe()
+    sys.stdout.flush()
+    sys.stderr.flush()
+    pid = os.fork()
+    if pid == 0:
+        code = 0
+        try:
+            os.close(r)
+            try:
+                res = ("ok", fn(args))
+            except BaseException:
+                res = ("exc", traceback.format_exc())
+            data = pickle.dumps(res, protocol=pickle.HIGHEST_PROTOCOL)
+            with os.fdopen(w, "wb") as f:
+                f.write(data)
+        except BaseException:
+            code = 3
+        finally:
+            os._exit(code)
+    os.close(w)
+    return pid, r
+
+
+def fork_collect(fd, pid):
+    chunks = []
+    while True:
+        b = os.read(fd, 1 << 20)
+        if not b:
+            break
+        chunks.append(b)
+    os.close(fd)
+    try:
+        os.waitpid(pid, 0)
+    except ChildProcessError:
+        pass
+    data = b"".join(chunks)
+    if not data:
+        return ("exc", "worker process %d died without a result" % pid)
+    return pickle.loads(data)
+
+
+def run_in_fork(fn, args, timeout=600):
+    """Synchronous helper: fn(args) in a fresh child (clean process state)."""
+    pid, fd = fork_call(fn, args)
+    r, _, _ = select.select([fd], [], [], timeout)
+    if not r:
+        try:
+            os.kill(pid, signal.SIGKILL)
+        except OSError:
+            pass
+        os.close(fd)
+        try:
+            os.waitpid(pid, 0)
+        except ChildProcessError:
+            pass
+        return ("exc", "timeout")
+    return fork_collect(fd, pid)
+
+
 def batch(engine, prop, tier, base, budget_s, procs, max_runs=None,
           chunk=None):
-    """Run a seeded batch.  Results are merged by chunk index; the first
-    violation (lowest run index among completed chunks) wins."""
+    """Run a seeded batch.  Every chunk of consecutive run indices executes
+    in its own freshly forked process (so the only process state a run can
+    inherit is that left by earlier runs of the same chunk - which the
+    replay machinery can reproduce as a 'prelude').  The violation with the
+    lowest run index among completed chunks wins."""
     global _ENGINE
     _ENGINE = engine
     t0 = time.time()
@@ -217,65 +289,153 @@ def batch(engine, prop, tier, base, budget_s, procs, max_runs=None,
     if chunk is None:
         chunk = 64 if tier == "quick" else 256
     nxt = 0
-    ctx = mp.get_context("fork")
-    with cf.ProcessPoolExecutor(max_workers=procs, mp_context=ctx) as ex:
-        pending = set()
+    live = {}  # fd -> (pid, a, b)
+    stop = False
 
-        def submit():
-            nonlocal nxt
-            a = nxt
-            b = a + chunk
-            if max_runs is not None:
-                if a >= max_runs:
-                    return False
-                b = min(b, max_runs)
-            nxt = b
-            pending.add(ex.submit(
-                _chunk, (engine.name, prop, tier, base, a, b, deadline)))
-            return True
+    def submit():
+        nonlocal nxt
+        a = nxt
+        b = a + chunk
+        if max_runs is not None:
+            if a >= max_runs:
+                return False
+            b = min(b, max_runs)
+        nxt = b
+        pid, fd = fork_call(
+            _chunk, (engine.name, prop, tier, base, a, b, deadline))
+        live[fd] = (pid, a, b)
+        return True
 
-        for _ in range(procs * 2):
-            if not submit():
+    for _ in range(procs):
+        if not submit():
+            break
+    hard_deadline = deadline + 400
+    while live:
+        r, _, _ = select.select(list(live), [], [], 5.0)
+        if not r:
+            if time.time() > hard_deadline:
+                for fd, (pid, a, b) in live.items():
+                    try:
+                        os.kill(pid, signal.SIGKILL)
+                    except OSError:
+                        pass
+                error = {"error": "worker(s) stalled past the deadline: "
+                         "run index ranges %r" % (
+                             [(a, b) for _, a, b in live.values()],),
+                         "run_index": -1, "run_seed": 0}
                 break
-        stop = False
-        while pending:
-            done, _ = cf.wait(pending, timeout=budget_s + 300,
-                              return_when=cf.FIRST_COMPLETED)
-            if not done:
-                error = {"error": "worker pool stalled", "run_index": -1,
-                         "run_seed": 0}
-                break
-            for fut in done:
-                pending.discard(fut)
-                try:
-                    a, b, d = fut.result()
-                except BaseException as e:  # worker died
-                    error = {"error": "worker died: %r" % (e,),
+            continue
+        for fd in r:
+            pid, a, b = live.pop(fd)
+            kind, res = fork_collect(fd, pid)
+            if kind != "ok":
+                if error is None:
+                    error = {"error": "worker for run indices [%d,%d) "
+                             "failed: %s" % (a, b, res),
                              "run_index": -1, "run_seed": 0}
-                    stop = True
-                    continue
-                merge(total, d)
-                if d["error"] and error is None:
-                    error = d["error"]
-                    stop = True
-                if d["violation"] is not None:
-                    if violation is None or \
-                            d["violation"]["run_index"] < violation["run_index"]:
-                        violation = d["violation"]
-                    stop = True
-                if not stop and time.time() < deadline:
-                    submit()
-            if stop:
-                for fut in pending:
-                    fut.cancel()
-                # let already-running chunks finish (they observe deadline)
-                deadline = 0
+                stop = True
+                continue
+            _, _, d = res
+            merge(total, d)
+            if d["error"] and error is None:
+                error = d["error"]
+                stop = True
+            if d["violation"] is not None:
+                d["violation"]["chunk_start"] = a
+                if violation is None or \
+                        d["violation"]["run_index"] < violation["run_index"]:
+                    violation = d["violation"]
+                stop = True
+            if not stop and time.time() < deadline:
+                submit()
+        if stop and live:
+            for fd, (pid, a, b) in list(live.items()):
+                try:
+                    os.kill(pid, signal.SIGKILL)
+                except OSError:
+                    pass
+                os.close(fd)
+                try:
+                    os.waitpid(pid, 0)
+                except ChildProcessError:
+                    pass
+            live.clear()
     total["wall_s"] = time.time() - t0
     return total, violation, error
 
 
+# ------------------------------------------------- history-dependent failures
+def _seq_job(args):
+    """(in a fresh fork) run a prelude of earlier runs, then the failing run.
+    prelude items: ("idx", run_index) re-generated from the seed, or
+    ("tapes", scen, sched)."""
+    prop, tier, base, prelude, main_tapes = args
+    engine = _ENGINE
+    recs = []
+    for item in prelude:
+        if item[0] == "idx":
+            i = item[1]
+            rs = run_seed_for(base, engine.name, prop, i)
+            _, _, t, s_ = run_one(engine, prop, tier, run_seed=rs,
+                                  ctx={"base": base, "index": i})
+        else:
+            _, _, t, s_ = run_one(engine, prop, tier,
+                                  tapes=(item[1], item[2]))
+        recs.append((t, s_))
+    out, sc, t, s_ = run_one(engine, prop, tier, tapes=main_tapes,
+                             want_trace=True)
+    out.pop("states", None)
+    return out, recs, engine.describe(sc), t, s_
+
+
+def find_prelude(engine, prop, tier, base, violation, clause, budget_s=90):
+    """The violation did not reproduce from its own tapes: it depends on
+    process state left by earlier runs of its chunk.  Find a small prelude
+    of earlier runs that reproduces it (each attempt in a fresh fork).
+    Returns (prelude_tapes, outcome, described_scenario, trec, srec) or
+    None."""
+    global _ENGINE
+    _ENGINE = engine
+    main = (violation["scen_tape"], violation["sched_tape"])
+    items = [("idx", j) for j in range(violation["chunk_start"],
+                                       violation["run_index"])]
+    t0 = time.time()
+
+    def attempt(pre):
+        kind, res = run_in_fork(_seq_job, (prop, tier, base, pre, main))
+        if kind != "ok":
+            return None
+        out = res[0]
+        v = out.get("violation")
+        if v is not None and v["clause"] == clause and not out.get("error"):
+            return res
+        return None
+
+    best = attempt(items)
+    if best is None:
+        return None
+    n = 2
+    while len(items) >= 1 and time.time() - t0 < budget_s:
+        size = max(1, len(items) // n)
+        removed = False
+        for k in range(0, len(items), size):
+            cand = items[:k] + items[k + size:]
+            r = attempt(cand)
+            if r is not None:
+                items, best, removed = cand, r, True
+                n = max(n - 1, 2)
+                break
+        if not removed:
+            if size == 1:
+                break
+            n = min(len(items), n * 2)
+    out, recs, desc, trec, srec = best
+    return recs, out, desc, trec, srec
+
+
 # ------------------------------------------------------------------ replay
-def write_replay(engine, prop, tier, base, info, viol, sc, trace, minimised):
+def write_replay(engine, prop, tier, base, info, viol, sc, trace, minimised,
+                 prelude=None, described=None):
     d = os.path.join(REPLAYS, prop)
     os.makedirs(d, exist_ok=True)
     path = os.path.join(d, "%016x.json" % info["run_seed"])
@@ -287,9 +447,15 @@ def write_replay(engine, prop, tier, base, info, viol, sc, trace, minimised):
             "clause": viol["clause"], "signature": viol.get("signature"),
             "detail": viol.get("detail"),
             "minimised": minimised,
+            "prelude": [{"scenario_tape": t, "schedule_tape": s_}
+                        for t, s_ in (prelude or [])],
+            "prelude_note": "runs executed earlier in the same process; the "
+                            "violation depends on state they leave behind"
+                            if prelude else None,
             "scenario_tape": info["scen_tape"],
             "schedule_tape": info["sched_tape"],
-            "scenario": engine.describe(sc),
+            "scenario": described if described is not None
+            else engine.describe(sc),
             "trace": trace,
         }, f, indent=1, default=repr)
     return path
@@ -299,6 +465,9 @@ def replay_file(engine, path, verbose=True):
     with open(path) as f:
         r = json.load(f)
     prop = r["property"]
+    for pre in r.get("prelude") or []:
+        run_one(engine, prop, r.get("tier", "quick"),
+                tapes=(pre["scenario_tape"], pre["schedule_tape"]))
     out, sc, trec, srec = run_one(
         engine, prop, r.get("tier", "quick"),
         tapes=(r["scenario_tape"], r["schedule_tape"]), want_trace=True)
@@ -331,6 +500,7 @@ def write_evidence(engine, prop, tier, base, total, nviol, extra=None):
         "rule": engine.rule(prop),
         "samples": total["samples"] or [{"note": "no non-trivial sample"}],
         "distinct_interleavings_or_histories": len(total["sigs"]),
+        "distinct_abstract_states": len(total.get("states", ())),
         "runs_per_hour": int(runs / wall * 3600),
         "seeds": {"base": base, "derivation":
                   "run_seed = blake2b(base, engine, property, run_index)",
